@@ -91,8 +91,9 @@ class Ctx:
 # Coq
 # ---------------------------------------------------------------------------
 
-def static_build(ctx=None, timeout=1800):
-    """(Re)build the static development; normally a no-op.  Serialised by flock."""
+def static_build(ctx=None, timeout=1800, target=None):
+    """(Re)build the static development (or only `target`, e.g. 'Props/C17.vo', and what it
+    depends on); normally a no-op.  Serialised by flock."""
     lock = open(os.path.join(VERIF, ".build.lock"), "w")
     fcntl.flock(lock, fcntl.LOCK_EX)
     try:
@@ -102,9 +103,10 @@ def static_build(ctx=None, timeout=1800):
                 ["coq_makefile", "-f", "_CoqProject", "-o", "Makefile"],
                 cwd=COQ, check=True, capture_output=True,
             )
-        p = subprocess.run(
-            ["timeout", str(timeout), "make", "-j16"], cwd=COQ, capture_output=True, text=True
-        )
+        cmd = ["timeout", str(timeout), "make", "-j16"]
+        if target:
+            cmd.append(target)
+        p = subprocess.run(cmd, cwd=COQ, capture_output=True, text=True)
         return p.returncode == 0, (p.stdout + p.stderr)[-4000:]
     finally:
         fcntl.flock(lock, fcntl.LOCK_UN)
@@ -143,18 +145,40 @@ def _write_coqproject():
     open(os.path.join(COQ, "_CoqProject"), "w").write(_coqproject_text())
 
 
-def forbidden_scan():
-    """grep for declared axioms / admits / disabled checks in the whole development."""
-    hits = []
-    for root, _, files in os.walk(COQ):
-        if os.sep + "run" in root:
+def cone(props_rel):
+    """Static .v files (relative to coq/) that `props_rel` transitively Requires from PV."""
+    seen, todo = [], [props_rel]
+    while todo:
+        f = todo.pop()
+        if f in seen or not os.path.exists(os.path.join(COQ, f)):
             continue
-        for f in files:
-            if f.endswith(".v"):
-                txt = open(os.path.join(root, f)).read()
-                txt = re.sub(r"\(\*.*?\*\)", "", txt, flags=re.S)
-                for m in FORBIDDEN.finditer(txt):
-                    hits.append("%s: %s" % (os.path.join(root, f), m.group(0)))
+        seen.append(f)
+        txt = re.sub(r"\(\*.*?\*\)", "", open(os.path.join(COQ, f)).read(), flags=re.S)
+        for m in re.finditer(r"From\s+PV\s+Require\s+(?:Import|Export)?\s*([^.]*(?:\.[A-Za-z_][^.]*)*)\.\s", txt):
+            for mod in m.group(1).split():
+                todo.append(mod.replace(".", "/") + ".v")
+        for m in re.finditer(r"\bPV\.([A-Za-z_0-9]+)\.([A-Za-z_0-9]+)", txt):
+            todo.append("%s/%s.v" % (m.group(1), m.group(2)))
+    return seen
+
+
+def forbidden_scan(props_rel=None):
+    """grep for declared axioms / admits / disabled checks in the development (the cone of one
+    property file, or everything)."""
+    hits = []
+    if props_rel:
+        files = [os.path.join(COQ, f) for f in cone(props_rel)]
+    else:
+        files = []
+        for root, _, fs in os.walk(COQ):
+            if os.sep + "run" in root:
+                continue
+            files += [os.path.join(root, f) for f in fs if f.endswith(".v")]
+    for path in files:
+        txt = open(path).read()
+        txt = re.sub(r"\(\*.*?\*\)", "", txt, flags=re.S)
+        for m in FORBIDDEN.finditer(txt):
+            hits.append("%s: %s" % (path, m.group(0)))
     return hits
 
 
@@ -210,6 +234,40 @@ def coq_run(ctx, name, text, timeout=900):
     ok, out, err = coqc(path, cwd=ctx.rundir, timeout=timeout,
                         extra_q=[(ctx.rundir, "Run" + ctx.pid)])
     return ok, out, err
+
+
+def coq_run_many(ctx, items, timeout=900, workers=8):
+    """items: list of (name, text).  Compiles them in parallel; returns list of (ok, out, err)."""
+    from concurrent.futures import ThreadPoolExecutor
+    with ThreadPoolExecutor(max_workers=workers) as ex:
+        return list(ex.map(lambda it: coq_run(ctx, it[0], it[1], timeout=timeout), items))
+
+
+def coq_eval_cases(ctx, label, preamble, type_str, encoded, check_fn, shard=200, timeout=900):
+    """Correspondence helper.  `encoded` is a list of Gallina terms (strings) of type `type_str`;
+    `check_fn` : type -> bool is a Gallina function available after `preamble`.
+    Returns the list of indices i for which `check_fn (encoded[i])` is not `true`, or None when a
+    shard failed to compile (recorded as a broken obligation)."""
+    items = []
+    parts = []
+    for s0 in range(0, len(encoded), shard):
+        part = list(range(s0, min(len(encoded), s0 + shard)))
+        parts.append(part)
+        text = (HEADER + "From Coq Require Import List.\n"
+                "Fixpoint pv_bad {A} (f : A -> bool) (l : list A) (i : nat) : list nat :=\n"
+                "  match l with nil => nil | cons x l' => (if f x then nil else cons i nil) ++ pv_bad f l' (S i) end.\n"
+                + preamble + "\nDefinition pv_cases : list (%s) :=\n [ %s ].\n"
+                "Eval vm_compute in (pv_bad (%s) pv_cases 0).\n"
+                % (type_str, ";\n   ".join(encoded[i] for i in part), check_fn))
+        items.append(("cases_%s_%d" % (label, s0), text))
+    bad = []
+    for part, (ok, out, err) in zip(parts, coq_run_many(ctx, items, timeout=timeout)):
+        if not ok:
+            ctx.oblige("correspondence:%s:coqc" % label, False, err[-1200:])
+            return None
+        vals = coq_results(out)
+        bad += [part[j] for j in parse_nat_list(vals[-1])]
+    return bad
 
 
 def coq_results(out):
@@ -350,12 +408,45 @@ def child_main(handler):
 # ---------------------------------------------------------------------------
 
 def load_known(pid):
-    p = os.path.join(VERIF, "findings", "known_findings.json")
+    """Entries of findings/known_findings.json for this property with status 'known'.
+    The file is read-only at run time.  Each entry: {property, status, tag, what, replay?}.
+    `tag` names the specific failing input class / call site; a violation is absorbed only
+    when the check computes exactly that tag for the failing input."""
+    out, tags = [], set()
+    srcs = []
     try:
-        data = json.load(open(p))
+        srcs.append(json.load(open(os.path.join(VERIF, "findings", "known_findings.json"))).get("findings", []))
     except OSError:
-        return []
-    return [e for e in data.get("findings", []) if e.get("property") == pid and e.get("status") == "known"]
+        pass
+    try:
+        srcs.append(json.load(open(os.path.join(VERIF, "findings", "known.d", pid + ".json"))))
+    except OSError:
+        pass
+    for lst in srcs:
+        for e in lst:
+            if e.get("property") == pid and e.get("status") == "known" and e.get("tag") not in tags:
+                tags.add(e.get("tag"))
+                out.append(e)
+    return out
+
+
+def report(ctx, tag, what, payload, kind="impl-violation"):
+    """A concrete failing input was found on the implementation.  If a known finding with
+    exactly this tag is listed, print it as KNOWN-FINDING (once per tag); else a VIOLATION."""
+    for e in load_known(ctx.pid):
+        if e.get("tag") == tag:
+            line = "%s [%s]" % (e.get("what", what), tag)
+            if line not in ctx.known_hits:
+                ctx.known_hits.append(line)
+            ctx.notes.setdefault("known_finding_inputs", {}).setdefault(tag, [])
+            if len(ctx.notes["known_finding_inputs"][tag]) < 3:
+                ctx.notes["known_finding_inputs"][tag].append(payload)
+            return False
+    payload = dict(payload)
+    payload["tag"] = tag
+    payload["what"] = what
+    violation(ctx, kind, payload)
+    return True
 
 
 def write_replay(ctx, kind, payload):
@@ -370,7 +461,32 @@ def write_replay(ctx, kind, payload):
     return path
 
 
+def replay_known(ctx, still_fails):
+    """S4: replay every listed known finding of this property on the implementation.
+    still_fails(entry) -> True / False / None (None = this module cannot replay the entry)."""
+    for e in load_known(ctx.pid):
+        try:
+            r = still_fails(e)
+        except Exception as ex:  # noqa
+            r = None
+            ctx.notes.setdefault("known_replay_errors", []).append("%s: %r" % (e.get("tag"), ex))
+        line = "%s [%s]" % (e.get("what", ""), e.get("tag"))
+        if r:
+            if line not in ctx.known_hits:
+                ctx.known_hits.append(line)
+        else:
+            print("note: known finding %s of %s %s" % (e.get("tag"), ctx.pid,
+                  "no longer reproduces" if r is False else "could not be replayed"))
+            ctx.notes.setdefault("known_not_reproduced", []).append(e.get("tag"))
+
+
+MAX_REPLAYS = 5
+
+
 def violation(ctx, kind, payload, no_input=False):
+    if len([v for v in ctx.violations if not v["no_input"]]) >= MAX_REPLAYS and not no_input:
+        ctx.notes["violations_not_written"] = ctx.notes.get("violations_not_written", 0) + 1
+        return None
     path = write_replay(ctx, kind, payload)
     ctx.violations.append({"kind": kind, "replay": path, "no_input": no_input})
     return path
